@@ -53,7 +53,7 @@ Print Assumptions gql_limit_answer.
 Theorem order_by_answer : forall st q,
   store_ok st -> single_hops (q_pat q) = true -> single_labels (q_pat q) = true -> pat_fresh (q_pat q) = true ->
   no_type_case st (q_pat q) = true -> directed (q_pat q) = true ->
-  plain_core q = true -> order_core q = true -> q_order q <> nil -> q_skip q = None -> q_limit q = None ->
+  plain_core q = true -> order_core q = true -> q_order q <> nil ->
   match q_ret q with RPlain items _ => props_on_nodes (q_pat q) items | _ => true end = true ->
   keys_fresh (chain_cols_pat (q_pat q)) (map fst (sort_keys (q_order q))) ->
   plan_rows st (gql_plan_of q) = answer st q.
@@ -155,6 +155,11 @@ Theorem gql_limit_before_distinct_refuted : exists st q,
 Proof. exact gql_limit_before_distinct_refuted_l. Qed.
 Print Assumptions gql_limit_before_distinct_refuted.
 
+Theorem gremlin_dedup_refuted : exists st q,
+  k14_gremlin_dedup LGremlin q = true /\ plan_rows st w_k14_gremlin_plan <> answer st q /\ plan_rows st (gql_plan_of q) = answer st q.
+Proof. exact gremlin_dedup_refuted_l. Qed.
+Print Assumptions gremlin_dedup_refuted.
+
 Theorem multi_label_refuted : exists st q,
   k7_multi_label q = true /\ plan_rows st (gql_plan_of q) <> answer st q /\ plan_rows st (cypher_plan_of q) <> answer st q.
 Proof. exact multi_label_refuted_l. Qed.
@@ -218,12 +223,12 @@ Qed.
 
 Definition nv_ord_q : query :=
   mkQ (mkPat (mkNP "a" ["A"]) [hop1 Out (Some "R") (Some "r") "b"])
-      None (RPlain [EVar "a"; EProp "b" "u"; EVar "r"] false) [OEnv (EProp "a" "u") true; OEnv (EProp "r" "eu") true; OEnv (EVar "b") false] None None.
+      None (RPlain [EVar "a"; EProp "b" "u"; EVar "r"] false) [OEnv (EProp "a" "u") true; OEnv (EProp "r" "eu") true; OEnv (EVar "b") false] (Some 1%nat) (Some 1%nat).
 Example nv_ord_hyps :
   plain_core nv_ord_q = true /\ order_core nv_ord_q = true /\ q_order nv_ord_q <> [] /\
   props_on_nodes (q_pat nv_ord_q) [EVar "a"; EProp "b" "u"; EVar "r"] = true /\
   keys_fresh (chain_cols_pat (q_pat nv_ord_q)) (map fst (sort_keys (q_order nv_ord_q))) /\
-  answer nv_st nv_ord_q = Ok [[VInt 0; VInt 101; VInt 1]; [VInt 0; VInt 101; VInt 0]].
+  answer nv_st nv_ord_q = Ok [[VInt 0; VInt 101; VInt 0]].
 Proof.
   split; [reflexivity|]. split; [reflexivity|]. split; [discriminate|]. split; [reflexivity|]. split; [|vm_compute; reflexivity].
   split.
